@@ -86,23 +86,25 @@ CHECKS = {
 
 # families added after the adversarial seed rounds (appended to the level text)
 EXTRA = {
- "C19": " Beyond the lattice: segments anchored at 3 origins with far endpoints over a 65x65 (129x129) grid x every lattice point on or next to them (unit scale, half scale, shifted to +-2^20); near-miss / near-hit pairs with coordinates up to 2^20 in 8 orientations; near-parallel family (directions M(P,Q)+e1 and M(P,Q)+e2, 12 primitive (P,Q), lengths M to 2^20, e1,e2 over [-2,2]^2, crossing / ending at / starting next to a common point, every offset in [-1,1]^2, both orders).",
- "C18": " Near-parallel family: rings whose first two edges are M(P,Q)+e1 and M(P,Q)+e2 (12 primitive directions, 30 lengths to 2^26 lattice units of 1/128, magnitude <= 2^20, e1,e2 over [-2,2]^2) closed as a triangle or through 6 fourth vertices, every rotation, both directions, with and without closing vertex; flags compared where every float product and partial sum of the library is exact.",
- "C01": " Larger scopes: rings of 40-100 vertices (comb, staircase, irregular 48-point star, sawtooth, spiral; also densified past the index threshold and as holes) probed at every integer point; right triangles with hypotenuse differences 11..57 probed at every lattice point.",
- "C02": " Larger scopes: two-hole x one-hole and three-hole polygons, 16-position discs in concave outers, the 40-100-vertex rings x ~20,000 coarse-grid partners, slanted-triangle contact pairs, near-miss lines passing a line end / square corner at 1/N for N up to 2^20, near-parallel long lines and sliver triangles (orientation-predicate oracle).",
- "C03": " Larger scopes as in C02 (multi-hole polygons, 16-position inners over concave outers, 40-100-vertex rings, slanted-triangle contact pairs).",
- "C12": " Slanted-triangle contact pairs (hypotenuse differences 11..57) under every transform.",
- "C04": " 16 layout families incl. fixed-LCG irregular scatters, mixed magnitudes, +-1.7e308 and a decimal family with vertices bit-exactly on candidate quadtree midlines; queries exactly on every candidate midline (both formulas, depth 0-2).",
- "C05": " Documents with thousands of positions / hundreds of holes and children and coordinates near the top of the float64 range under every index option.",
- "C06": " Plus generated families: documents with thousands of positions / hundreds of children, 1,545 number spellings (1-19 digits, the band above 2^53, exponent forms) as Point / LineString / Polygon, member texts combining insignificant whitespace with escaped quotes, and the string alphabet (168 units: printable ASCII, DEL, all escapes, \\u escapes of all controls, surrogate pairs and lone surrogates, raw 2-4-byte UTF-8, invalid UTF-8) alone, between letters and in every ordered pair as member key / value / id / property (57,792 documents).",
+ "C19": " Beyond the lattice: segments anchored at 3 origins with far endpoints over a 65x65 (129x129) grid x every lattice point on or next to them (unit scale, half scale, shifted to +-2^20); near-miss / near-hit pairs with coordinates up to 2^20 in 8 orientations; near-parallel family (directions M(P,Q)+e1 and M(P,Q)+e2, 12 primitive (P,Q), lengths M to 2^20, e1,e2 over [-2,2]^2, crossing / ending at / starting next to a common point, every offset in [-1,1]^2, both orders). The near-parallel family also on a 1/64 grid with lengths to 2^26 lattice units (one-sided segments, CollinearPoint / ContainsPoint at the meeting point); transforms 2^-30 and 2^-45.",
+ "C18": " Near-parallel family: rings whose first two edges are M(P,Q)+e1 and M(P,Q)+e2 (12 primitive directions, 30 lengths to 2^26 lattice units of 1/128, magnitude <= 2^20, e1,e2 over [-2,2]^2) closed as a triangle or through 6 fourth vertices, every rotation, both directions, with and without closing vertex; flags compared where every float product and partial sum of the library is exact. Series obtained through Move: every sequence of length 3..4 (5) over 3x3 with y in units of 2^-40, ring and line, moved by (3,-5), (0.1,0.3), (0,2^19), (0,0): attributes must be those of a series built from the moved positions.",
+ "C01": " Larger scopes: rings of 40-100 vertices (comb, staircase, irregular 48-point star, sawtooth, spiral; also densified past the index threshold and as holes) probed at every integer point; right triangles with hypotenuse differences 11..57 probed at every lattice point. Derived objects: every big ring under each index configuration translated through Move by 3 exact offsets; a 2^-30 scaled copy of the ring tree.",
+ "C02": " Larger scopes: two-hole x one-hole and three-hole polygons, 16-position discs in concave outers, the 40-100-vertex rings x ~20,000 coarse-grid partners, slanted-triangle contact pairs, near-miss lines passing a line end / square corner at 1/N for N up to 2^20, near-parallel long lines and sliver triangles (orientation-predicate oracle). Every pair is evaluated under four realisations: index-free, alternate indexes, both operands as derived objects (built elsewhere under an r-tree / default quadtree and brought into place through Move), and scaled by 2^-30; threshold rings (14..17 vertices, with / without closing vertex) x frames whose hole the ring touches.",
+ "C03": " Larger scopes as in C02 (multi-hole polygons, 16-position inners over concave outers, 40-100-vertex rings, slanted-triangle contact pairs). Four realisations per pair as in C02 (index-free, alternate indexes, Move-derived, 2^-30 scale).",
+ "C12": " Slanted-triangle contact pairs (hypotenuse differences 11..57) under every transform. Move transforms start from r-tree / quadtree-indexed sources; scales 2^-30 and 2^-41; 14..17-position discs (closed / unclosed) x outers with notches, slots, holes and frames under every re-encoding.",
+ "C04": " 16 layout families incl. fixed-LCG irregular scatters, mixed magnitudes, +-1.7e308 and a decimal family with vertices bit-exactly on candidate quadtree midlines; queries exactly on every candidate midline (both formulas, depth 0-2). Move by 7 offsets (exact, far beyond the extent, inexact in binary) incl. the moved series' own Search.",
+ "C05": " Documents with thousands of positions / hundreds of holes and children and coordinates near the top of the float64 range under every index option. Mixed nesting: every wrapper sequence <= 3 over {GeometryCollection, Feature, Circle-typed Feature, Feature with properties, FeatureCollection} repeated to depth 12 and 40; hand-assembled Poly values in the pool.",
+ "C06": " Plus generated families: documents with thousands of positions / hundreds of children, 1,545 number spellings (1-19 digits, the band above 2^53, exponent forms) as Point / LineString / Polygon, member texts combining insignificant whitespace with escaped quotes, and the string alphabet (168 units: printable ASCII, DEL, all escapes, \\u escapes of all controls, surrogate pairs and lone surrogates, raw 2-4-byte UTF-8, invalid UTF-8) alone, between letters and in every ordered pair as member key / value / id / property (57,792 documents). Nested reserved keys (8 names x 7 nesting shapes x 3 member names x 8 hosts) and ring-closure near misses (1..8 ulps).",
  "C07": " Plus the generated families of C06 (large documents, number spellings, member texts, string alphabet), each also truncated by a byte, extended by a byte and wrapped in whitespace.",
- "C08": " Seeds with 17-70 positions (past the index thresholds), big-geometry and decimal-midline documents with probes exactly on candidate midlines.",
- "C09": " Big objects: zigzag LineStrings and Polygons with 33..65,538 segments (either side of the index thresholds and of the 1/2/4-byte segment-number boundaries) under QuadTree / RTree / no index x 10 probe objects at ~25 first / last / boundary-numbered segments: the same laws, independence of the index kind, exact point membership.",
- "C10": " Children and probes near the top of the float64 range (1e308), nested-collection probes, ForEach model with every stop position.",
- "C13": " Dense grid: 13 mantissas x 11 decades of radii (1 mm .. 10,000 km) x a 13 x 10 (24 x 18) grid of centres incl. near-poles and the antimeridian, probes at +-1.5 / +-2.5 / +-4 mm from the rim.",
- "C15": " Pole approach: travel along (and within 1e-6..1e-3 degree of) the meridian ending from 10 m (100 m) short of to beyond the pole in 17 (29) steps, from 9 (18) latitudes on both hemispheres x 5 longitudes.",
+ "C08": " Seeds with 17-70 positions (past the index thresholds), big-geometry and decimal-midline documents with probes exactly on candidate midlines. Three large circles (mid latitude, polar cap, across the antimeridian) as probes against collections of points all around their rim.",
+ "C09": " Big objects: zigzag LineStrings and Polygons with 33..65,538 segments (either side of the index thresholds and of the 1/2/4-byte segment-number boundaries) under QuadTree / RTree / no index x 10 probe objects at ~25 first / last / boundary-numbered segments: the same laws, independence of the index kind, exact point membership. The zigzags and a saw polygon (vertices on the quadtree midlines) of 33..4,097 segments translated through Move by 4 offsets (inexact in binary / beyond the extent), probed at their own positions, reflexivity, independence of the index kind.",
+ "C10": " Children and probes near the top of the float64 range (1e308), nested-collection probes, ForEach model with every stop position. Fifth large-collection layout: non-empty Multi* / nested / Feature children holding empty members.",
+ "C13": " Dense grid: 13 mantissas x 11 decades of radii (1 mm .. 10,000 km) x a 13 x 10 (24 x 18) grid of centres incl. near-poles and the antimeridian, probes at +-1.5 / +-2.5 / +-4 mm from the rim. Every 30th-degree probe also with its longitude written +-360 degrees away.",
+ "C15": " Pole approach: travel along (and within 1e-6..1e-3 degree of) the meridian ending from 10 m (100 m) short of to beyond the pole in 17 (29) steps, from 9 (18) latitudes on both hemispheres x 5 longitudes. Bearings 1e-7..1e-3 degrees either side of each cardinal direction.",
+ "C11": " Every coordinate sequence is also realised as LineString / Polygon / MultiPolygon obtained through Move by (0,0), (1,-2), (0.1,0.3).",
+ "C14": " Dense grid: 45 (80) irregular latitudes x 5 (8) longitudes x 17 mantissas x 7 decades of radii, with the rim location of extreme longitude on either side found by ternary search; antimeridian approach: the disc ending from 10 m short of to 10 m beyond the antimeridian in 12 steps (6 latitudes x 4 radii, both sides).",
  "C16": " The pool includes objects past the default thresholds (70-hole polygon, 70-feature collection, 100-position line, second circle) with cheap point calls; objects are rebuilt fresh for every execution so that lazily built state is exercised.",
- "C17": " Parsed documents include the member-text family and the string alphabet of C06 (every unit and ordered pair of units as member key / value).",
+ "C17": " Parsed documents include the member-text family and the string alphabet of C06 (every unit and ordered pair of units as member key / value). Hand-assembled geometry.Poly values (nil exterior with holes, zero value, nil entry, Rect exterior with holes); nested-reserved-key documents.",
 }
 PENDING_REASON = "check not built yet in this round (planned, see DESIGN.md §7); not claimed until its command exists"
 
